@@ -47,9 +47,9 @@ REQUIRED_COUNTERS = {
     "quick": {"split_chain_compared": 150, "checkpoint_continuation_compared": 1200, "callback_state_compared": 5000,
               "step_attr_diff_checked": 10000, "reinit_attr_compared": 1500, "stateless_chain_compared": 70,
               "gibbs_split_compared": 150, "saved_state_unaltered_checked": 1200},
-    "thorough": {"split_chain_compared": 2500, "checkpoint_continuation_compared": 20000, "callback_state_compared": 80000,
-                 "step_attr_diff_checked": 150000, "reinit_attr_compared": 30000, "stateless_chain_compared": 1200,
-                 "gibbs_split_compared": 2500, "saved_state_unaltered_checked": 20000},
+    "thorough": {"split_chain_compared": 1200, "checkpoint_continuation_compared": 14000, "callback_state_compared": 50000,
+                 "step_attr_diff_checked": 150000, "reinit_attr_compared": 15000, "stateless_chain_compared": 600,
+                 "gibbs_split_compared": 1300, "saved_state_unaltered_checked": 14000},
 }
 BUDGET_S = {"quick": 240.0, "thorough": 2400.0}
 
@@ -97,7 +97,7 @@ LEGACY_GIBBS = ["rto_conj", "cwmh_conj", "mh_conj", "ugla_conjapprox", "regrto_c
 
 def cases(tier, seed):
     rnd = core.rng_for(seed, PROPERTY, tier)
-    reps = 8 if tier == "quick" else 100
+    reps = 8 if tier == "quick" else 70
     out = []
     for name, variants in STATEFUL.items():
         for (tk, var) in variants:
